@@ -139,5 +139,21 @@ CHECKS["C11"] = {
     "level_note": "All pool targets are healthy, so the 'presumed healthy' licence is never exercised here (C09 covers health); both routers probe the same fake targets.",
 }
 
+CHECKS["C16"] = {
+    "level": "exploration",
+    "rule": "2-9 generated commands building tables of root and sub-path services over hosts {a.test, b.test, *.test, ::1, x.a.test} "
+            "with TLS off / static certificate / automatic, redirect on/off, in generated orders with redeploys that flip TLS, removal "
+            "of root services and an optional restart; after every command 3-14 requests (scheme x Host with port / IPv4 / bracketed "
+            "IPv6 x request-target bytes with queries, encoded octets, double slashes) parsed by net/http's own request reader, and 9 "
+            "SNI names (bound, unbound, sub-domain, wildcard-covered, empty); oracle: effective policy from the reference model (sub-path "
+            "follows the root service of its host), exact Location string, 503 for TLS on non-TLS, certificate <=> name bound to a "
+            "TLS-enabled root service (automatic managers are asked for their host policy only, never for a certificate). "
+            "Non-trivial = a sub-path service whose effective policy differs from its own flags, or a Host with a port. Distinct by plan hash.",
+    "layers": [L("TestVF_C16", 600, 8000)],
+    "technique": "stateful property-based testing (rapid): generated TLS tables, orders and requests against the reference model's effective-policy function",
+    "level_text": "Bounded random exploration; sub-path services whose hosts disagree about the root service's settings are outside the statement's domain and are counted as excluded.",
+    "level_note": "No TLS handshake is performed: GetCertificate is called directly with generated ClientHelloInfo; ACME is never contacted.",
+}
+
 ALL_IDS = ["C%02d" % i for i in range(1, 21)]
 NOT_APPLICABLE = {pid: "check not built yet (work in progress; see DESIGN.md section 8 for the order of work)" for pid in ALL_IDS if pid not in CHECKS}
